@@ -1,6 +1,8 @@
 import Chiritori.Props.C19Idem
 import Chiritori.Props.C18
 import Chiritori.Lemmas.Respell
+import Chiritori.Lemmas.RespellLines
+import Chiritori.Props.C15
 /-
   C18, end to end for default-strategy removals: the same piece list rendered under two delimiter pairs (pieces whose
   characters avoid both pairs - the property's domain; delimiters beginning and ending with a non-whitespace
@@ -10,6 +12,9 @@ import Chiritori.Lemmas.Respell
   The whitespace between the tags is not compared exactly: that would need the locality of the whitespace tidying
   (each remover looks only at blanks and line breaks around a seam), which is proved per remover (C13) but not
   assembled across a change of delimiters.  Tag names are covered at the level of the decision (`rename_invariant`).
+
+  `list_lines_respelled`: with delimiters that contain no line break and no `unwrap-block` in the document, `list`
+  reports the same line ranges, item by item, under either pair.
 -/
 namespace Chiritori.Props.C18
 open Chiritori Chiritori.Spec Chiritori.Props.C19
@@ -25,7 +30,7 @@ def PiecesWs : List Piece → List Piece → Prop
   | .text _ :: _, .tag _ _ :: _ => False
 
 theorem piecesWs_of (ds de ds' de' : List Char) : ∀ (L L' : List Token) (qs qs' : List Piece),
-    PRel ds de qs L → PRel ds' de' qs' L' → TokXs ds de ds' de' L L' → PiecesWs qs qs'
+    PRel ds de qs L → PRel ds' de' qs' L' → TokXs ds de ds' de' (fun _ _ => True) L L' → PiecesWs qs qs'
   | [], [], qs, qs', h1, h2, _ => by
     cases qs with
     | nil =>
@@ -37,7 +42,7 @@ theorem piecesWs_of (ds de ds' de' : List Char) : ∀ (L L' : List Token) (qs qs
   | _ :: _, [], _, _, _, _, h3 => absurd h3 (by simp [TokXs])
   | t :: L, u :: L', qs, qs', h1, h2, h3 => by
     simp only [TokXs] at h3
-    obtain ⟨⟨hk, hx⟩, h3'⟩ := h3
+    obtain ⟨⟨⟨hk, hx⟩, _⟩, h3'⟩ := h3
     cases qs with
     | nil => simp [PRel] at h1
     | cons q qs1 =>
@@ -106,14 +111,14 @@ theorem respell_default (d0 : Char) (dr : List Char) (e0 : Char) (er : List Char
   -- the tokens, and hence the forests, correspond
   have hT := tokXs_of_tnorm (d0 :: dr) (e0 :: er) (d0' :: dr') (e0' :: er') ps [] _ _ hfree
     (tokens_tnorm d0 dr e0 er ps hok) (tokens_tnorm d0' dr' e0' er' ps hok')
-  have hG := parse_x (d0 :: dr) (e0 :: er) (d0' :: dr') (e0' :: er') (by simp) (by simp) (by simp) (by simp) _ _ hT
+  have hG := parse_x (d0 :: dr) (e0 :: er) (d0' :: dr') (e0' :: er') (fun _ _ => True) (by simp) (by simp) (by simp) (by simp) _ _ hT
   have hnu' : NoReadyUnwrap cfg
       (parseSource (renderAll (d0' :: dr') (e0' :: er') ps) (d0' :: dr') (e0' :: er')) := by
     intro e he hc
     have hm : e.1 ∈ (elementsOf (parseSource (renderAll (d0' :: dr') (e0' :: er') ps) (d0' :: dr') (e0' :: er'))).map (·.1) :=
       List.mem_map.mpr ⟨e, he, rfl⟩
     unfold parseSource at hm
-    rw [← elements_x _ _ _ _ _ _ hG] at hm
+    rw [← elements_x _ _ _ _ _ _ _ hG] at hm
     obtain ⟨e1, he1, hee⟩ := List.mem_map.mp hm
     have := hnu e1 he1
     rw [hee] at this
@@ -122,7 +127,144 @@ theorem respell_default (d0 : Char) (dr : List Char) (e0 : Char) (er : List Char
   obtain ⟨qs', _, ho', hr'⟩ := clean_shape d0' dr' e0' er' hd0' hel' ps hok' cfg out' hnu' h'
   refine ⟨qs, qs', ho, ho', ?_⟩
   apply piecesWs_of _ _ _ _ _ _ qs qs' hr hr'
-  exact flatten_x _ _ _ _ _ _ (prune_x _ _ _ _ (conditionHolds cfg) _ _ hG)
+  exact flatten_x _ _ _ _ _ _ _ (prune_x _ _ _ _ _ (conditionHolds cfg) _ _ hG)
+
+/-! ### list line ranges under a change of delimiters -/
+
+/-- no element carries `unwrap-block` -/
+def NoUnwrapAttr (parts : List Part) : Prop := ∀ e ∈ elementsOf parts, hasAttr e.1 "unwrap-block" = false
+
+theorem elementsOf_append' : ∀ (a b : List Part), elementsOf (a ++ b) = elementsOf a ++ elementsOf b
+  | [], b => by simp [elementsOf]
+  | x :: xs, b => by simp [elementsOf, elementsOf_append' xs b, List.append_assoc]
+
+mutual
+theorem wrapFree_of_noUnwrap (b : Bytes) : ∀ (parts : List Part), NoUnwrapAttr parts → WrapFree b parts
+  | [], _ => trivial
+  | p :: ps, h => by
+    simp only [WrapFree]
+    exact ⟨wrapFreePart_of_noUnwrap b p (fun e he => h e (by simp [elementsOf, he])),
+      wrapFree_of_noUnwrap b ps (fun e he => h e (by simp [elementsOf, he]))⟩
+theorem wrapFreePart_of_noUnwrap (b : Bytes) : ∀ (p : Part),
+    (∀ e ∈ elementsOfPart p, hasAttr e.1 "unwrap-block" = false) → WrapFreePart b p
+  | .text _, _ => trivial
+  | .element el st en ch, h => by
+    simp only [WrapFreePart]
+    refine ⟨?_, wrapFree_of_noUnwrap b ch (fun e he => h e (by simp [elementsOfPart, he]))⟩
+    intro hh t hext
+    have hu := h (el, st, en) (by simp [elementsOfPart])
+    simp only [extentOf, hu, Bool.false_eq_true, ite_false] at hext
+    split at hext <;> simp at hext
+end
+
+/-- the line range `list` reports for a region (`C15.line_numbers`) -/
+def lineRangeOf (b : Bytes) (r : Rng) : Nat × Nat := (1 + nlBefore b r.1, 1 + nlBefore b (r.2 - 1))
+
+theorem lineRange_is_reported (b : Bytes) (start stop : Nat) (h : 0 < stop) :
+    getLineRange (lineBreaks b) start stop = .ok (lineRangeOf b (start, stop)) := by
+  rw [C15.line_numbers b start stop h, count_lineBreaks, count_lineBreaks]
+  rfl
+
+mutual
+theorem regions_lines (ds de ds' de' : List Char) (b b' : Bytes) (sel : Element → Bool) :
+    ∀ (a a' : List Part), partsX ds de ds' de' (SameLines b b') a a' →
+    (∀ e ∈ elementsOf a, hasAttr e.1 "unwrap-block" = false ∧ e.2.1.bstart < e.2.2.bstop) →
+    (∀ e ∈ elementsOf a', hasAttr e.1 "unwrap-block" = false ∧ e.2.1.bstart < e.2.2.bstop) →
+    (refRegions sel b a).map (lineRangeOf b) = (refRegions sel b' a').map (lineRangeOf b')
+  | [], [], _, _, _ => rfl
+  | [], _ :: _, h, _, _ => absurd h (by simp [partsX])
+  | _ :: _, [], h, _, _ => absurd h (by simp [partsX])
+  | p :: ps, q :: qs, h, h1, h2 => by
+    simp only [partsX] at h
+    simp only [refRegions, List.map_append]
+    rw [regionsPart_lines ds de ds' de' b b' sel p q h.1 (fun e he => h1 e (by simp [elementsOf, he]))
+        (fun e he => h2 e (by simp [elementsOf, he])),
+      regions_lines ds de ds' de' b b' sel ps qs h.2 (fun e he => h1 e (by simp [elementsOf, he]))
+        (fun e he => h2 e (by simp [elementsOf, he]))]
+theorem regionsPart_lines (ds de ds' de' : List Char) (b b' : Bytes) (sel : Element → Bool) :
+    ∀ (p q : Part), partX ds de ds' de' (SameLines b b') p q →
+    (∀ e ∈ elementsOfPart p, hasAttr e.1 "unwrap-block" = false ∧ e.2.1.bstart < e.2.2.bstop) →
+    (∀ e ∈ elementsOfPart q, hasAttr e.1 "unwrap-block" = false ∧ e.2.1.bstart < e.2.2.bstop) →
+    (refRegionsPart sel b p).map (lineRangeOf b) = (refRegionsPart sel b' q).map (lineRangeOf b')
+  | .text _, .text _, _, _, _ => rfl
+  | .text _, .element _ _ _ _, h, _, _ => absurd h (by simp [partX])
+  | .element _ _ _ _, .text _, h, _, _ => absurd h (by simp [partX])
+  | .element el st en ch, .element el' st' en' ch', h, h1, h2 => by
+    simp only [partX] at h
+    obtain ⟨hel, hst, hen, hch⟩ := h
+    subst hel
+    obtain ⟨u1, o1⟩ := h1 (el, st, en) (by simp [elementsOfPart])
+    obtain ⟨u2, o2⟩ := h2 (el, st', en') (by simp [elementsOfPart])
+    have ih := regions_lines ds de ds' de' b b' sel ch ch' hch (fun e he => h1 e (by simp [elementsOfPart, he]))
+      (fun e he => h2 e (by simp [elementsOfPart, he]))
+    simp only [refRegionsPart]
+    split
+    · rw [extentOf_default b el st en u1 o1, extentOf_default b' el st' en' u2 o2]
+      simp only [List.map_cons, List.map_nil, lineRangeOf]
+      rw [hst.2.1, hen.2.2.2]
+    · exact ih
+end
+
+/-- C18, listing: the same piece list under two delimiter pairs that contain no line break (no element carrying
+    `unwrap-block`) is listed with the same line ranges, item by item -/
+theorem list_lines_respelled (d0 : Char) (dr : List Char) (e0 : Char) (er : List Char)
+    (d0' : Char) (dr' : List Char) (e0' : Char) (er' : List Char)
+    (hnl : ∀ c ∈ (d0 :: dr) ++ (e0 :: er), c ≠ '\n') (hnl' : ∀ c ∈ (d0' :: dr') ++ (e0' :: er'), c ≠ '\n')
+    (ps : List Piece)
+    (hfree : ∀ p ∈ ps, p.free ((d0 :: dr) ++ (e0 :: er)) ∧ p.free ((d0' :: dr') ++ (e0' :: er')))
+    (cfg : Cfg)
+    (hnu : NoUnwrapAttr (parseSource (renderAll (d0 :: dr) (e0 :: er) ps) (d0 :: dr) (e0 :: er))) :
+    (listMarkers (renderAll (d0 :: dr) (e0 :: er) ps) (d0 :: dr) (e0 :: er) cfg).map
+        (fun x => lineRangeOf (bytesOf (renderAll (d0 :: dr) (e0 :: er) ps)) (x.1.start, x.1.stop)) =
+    (listMarkers (renderAll (d0' :: dr') (e0' :: er') ps) (d0' :: dr') (e0' :: er') cfg).map
+        (fun x => lineRangeOf (bytesOf (renderAll (d0' :: dr') (e0' :: er') ps)) (x.1.start, x.1.stop)) := by
+  have hok : ∀ p ∈ ps, p.ok d0 e0 := fun p hp => ok_of_free d0 dr e0 er p (hfree p hp).1
+  have hok' : ∀ p ∈ ps, p.ok d0' e0' := fun p hp => ok_of_free d0' dr' e0' er' p (hfree p hp).2
+  generalize hsrc : renderAll (d0 :: dr) (e0 :: er) ps = src at hnu
+  generalize hsrc' : renderAll (d0' :: dr') (e0' :: er') ps = src'
+  obtain ⟨tk, _⟩ := tokenize_ok src (d0 :: dr) (e0 :: er) (by simp)
+  obtain ⟨tk', _⟩ := tokenize_ok src' (d0' :: dr') (e0' :: er') (by simp)
+  have hT := tokXs_of_tnorm (d0 :: dr) (e0 :: er) (d0' :: dr') (e0' :: er') ps [] _ _ hfree
+    (tokens_tnorm d0 dr e0 er ps hok) (tokens_tnorm d0' dr' e0' er' ps hok')
+  rw [hsrc, hsrc'] at hT
+  -- the line counts agree token by token
+  have hpw := chain_sameLines (d0 :: dr) (e0 :: er) (d0' :: dr') (e0' :: er') hnl hnl'
+    (fun w c h => hnl c (by rw [h]; simp)) (fun w c h => hnl' c (by rw [h]; simp)) (by simp) (by simp)
+    _ _ 0 0 0 0 [] [] [] [] tk.chain tk'.chain hT rfl rfl rfl
+  simp only [List.nil_append, List.append_nil, tk.flatEq, tk'.flatEq] at hpw
+  have hTL := tokXs_zip _ _ _ _ _ _ _ hT hpw
+  have hG := parse_x (d0 :: dr) (e0 :: er) (d0' :: dr') (e0' :: er') _ (by simp) (by simp) (by simp) (by simp) _ _ hTL
+  have hnu' : NoUnwrapAttr (parseSource src' (d0' :: dr') (e0' :: er')) := by
+    intro e he
+    have hm : e.1 ∈ (elementsOf (parseSource src' (d0' :: dr') (e0' :: er'))).map (·.1) := List.mem_map.mpr ⟨e, he, rfl⟩
+    unfold parseSource at hm
+    rw [← elements_x _ _ _ _ _ _ _ hG] at hm
+    obtain ⟨e1, he1, hee⟩ := List.mem_map.mp hm
+    have := hnu e1 he1
+    rw [hee] at this
+    exact this
+  -- the listed regions are the reference regions
+  rw [show (fun x : Marker × Bool => lineRangeOf (bytesOf src) (x.1.start, x.1.stop)) =
+      (lineRangeOf (bytesOf src)) ∘ (fun x : Marker × Bool => (x.1.start, x.1.stop)) from rfl,
+    show (fun x : Marker × Bool => lineRangeOf (bytesOf src') (x.1.start, x.1.stop)) =
+      (lineRangeOf (bytesOf src')) ∘ (fun x : Marker × Bool => (x.1.start, x.1.stop)) from rfl,
+    ← List.map_map, ← List.map_map,
+    C15.regions_exact src _ _ cfg (by simp) (wrapFree_of_noUnwrap _ _ hnu),
+    C15.regions_exact src' _ _ cfg (by simp) (wrapFree_of_noUnwrap _ _ hnu')]
+  -- spans, to know that a start tag lies in front of the end of its end tag
+  have hspan : BSpan (flattenParts (parseSource src (d0 :: dr) (e0 :: er))) 0 (blen src) := by
+    have := BSpan_of_chain _ 0 0 tk.chain
+    rw [tk.flatEq, Nat.zero_add] at this
+    rw [show flattenParts (parseSource src (d0 :: dr) (e0 :: er)) = tokenize src (d0 :: dr) (e0 :: er) from parse_flatten _ _ _]
+    exact this
+  have hspan' : BSpan (flattenParts (parseSource src' (d0' :: dr') (e0' :: er'))) 0 (blen src') := by
+    have := BSpan_of_chain _ 0 0 tk'.chain
+    rw [tk'.flatEq, Nat.zero_add] at this
+    rw [show flattenParts (parseSource src' (d0' :: dr') (e0' :: er')) = tokenize src' (d0' :: dr') (e0' :: er') from parse_flatten _ _ _]
+    exact this
+  exact regions_lines _ _ _ _ _ _ (conditionHolds cfg) _ _ hG
+    (fun e he => ⟨hnu e he, elements_ordered _ 0 _ hspan e he⟩)
+    (fun e he => ⟨hnu' e he, elements_ordered _ 0 _ hspan' e he⟩)
 
 /-! Non-vacuity: the document of `compose_default`, once with `<` `>` and once with `[%` `%]`. -/
 def frB (cs : List Char) : Piece → Bool
@@ -150,5 +292,18 @@ example : (∀ p ∈ exPs2, p.free ("<".toList ++ ">".toList) ∧ p.free ("[%".t
   have h1 : exPs2.all (frB ("<".toList ++ ">".toList)) = true := by decide +kernel
   have h2 : exPs2.all (frB ("[%".toList ++ "%]".toList)) = true := by decide +kernel
   exact ⟨frB_sound _ p (List.all_eq_true.mp h1 p hp), frB_sound _ p (List.all_eq_true.mp h2 p hp)⟩
+
+theorem noUnwrapAttr_of_all (parts : List Part)
+    (h : (elementsOf parts).all (fun e => !hasAttr e.1 "unwrap-block") = true) : NoUnwrapAttr parts := by
+  intro e he
+  have := List.all_eq_true.mp h e he
+  simpa using this
+
+/-! Non-vacuity of `list_lines_respelled`: no element of the example carries `unwrap-block`, and three regions are listed
+    (lines 2-4, 6 and 7 under either delimiter pair). -/
+example : NoUnwrapAttr (parseSource (renderAll "<".toList ">".toList exPs2) "<".toList ">".toList) ∧
+    (listMarkers (renderAll "[%".toList "%]".toList exPs2) "[%".toList "%]".toList exC2).map
+      (fun x => lineRangeOf (bytesOf (renderAll "[%".toList "%]".toList exPs2)) (x.1.start, x.1.stop)) = [(2, 4), (6, 6), (7, 7)] :=
+  ⟨noUnwrapAttr_of_all _ (by decide +kernel), by decide +kernel⟩
 
 end Chiritori.Props.C18
